@@ -315,6 +315,9 @@ func takeViolation() *Violation {
 func writeReplay(v *Violation) string {
 	dir := filepath.Join(VerifDir(), "replays")
 	_ = os.MkdirAll(dir, 0o755)
+	if a := os.Getenv("VERIF_GOARCH"); a != "" && v.Replay != nil {
+		v.Replay["needs_goarch"] = a // found by a build for another word size: replay with the same build
+	}
 	b, _ := json.MarshalIndent(v, "", " ")
 	h := sha256.Sum256(b)
 	safeKey := regexp.MustCompile(`[^A-Za-z0-9_.-]+`).ReplaceAllString(v.Key, "_")
